@@ -145,7 +145,13 @@ def job_digest(job):
     return hashlib.sha256(json.dumps(j, sort_keys=True, separators=(",", ":")).encode()).hexdigest()[:16]
 
 
+REPLAY_MODE = [False]      # set by props.run for `--replay` runs: they describe one history, not the check
+
+
 def write_evidence(pid, tier, seed, level, coverage, wall_s, violations, assumptions):
+    if REPLAY_MODE[0] or os.environ.get("VERIF_REPO"):
+        # a replay of a single history, or a development run against another tree: not evidence for the check
+        return
     os.makedirs(EVID, exist_ok=True)
     ev = {"property_id": pid, "tier": tier, "seed": seed, "level": level, "coverage": coverage,
           "assumptions": assumptions, "wall_s": round(wall_s, 2), "violations": violations}
